@@ -37,25 +37,33 @@ def layout_workload(ctx, generate_every):
     ctx.subruns.append({"engine": "layoutmon layout", "profile": "fastdebug (optimised, debug assertions and overflow checks on)",
                         "shards": NS, "random_histories_per_shard": count,
                         "sweep": {"max_variants": sweep, "max_adds_per_variant": 2, "alphabet_size": sweep_alpha}})
-    return reports
+    ctx.absorb_reports(reports, binary=ctx.last_binary, outs=ctx.last_outs)
+    release_pass(ctx, "layout", ["--count", count // 4, "--generate-every", generate_every, "--sweep", 0, "--sweep-alpha", sweep_alpha], timeout)
+
+
+def release_pass(ctx, mode, args, timeout):
+    """The same monitors over a smaller sample with truc built the way a release build builds
+    it for a build script: optimised, no debug assertions, no overflow checks."""
+    binary = layoutmon_release()
+    reports = ctx.run_layoutmon(binary, mode, NS, lambda s: args, timeout)
+    ctx.subruns.append({"engine": "layoutmon " + mode, "profile": "release (truc at opt-level 3, debug assertions and overflow checks off)",
+                        "shards": NS, "arguments": " ".join(str(a) for a in args)})
+    ctx.absorb_reports(reports, binary=ctx.last_binary, outs=ctx.last_outs, label="release")
 
 
 def run_c01(ctx):
-    reports = layout_workload(ctx, 0)
-    ctx.absorb_reports(reports, binary=ctx.last_binary, outs=ctx.last_outs)
+    layout_workload(ctx, 0)
     ctx.exhaustive = False
 
 
 def run_c02(ctx):
-    reports = layout_workload(ctx, 40 if ctx.quick else 400)
-    ctx.absorb_reports(reports, binary=ctx.last_binary, outs=ctx.last_outs)
+    layout_workload(ctx, 40 if ctx.quick else 400)
     import props_gen
     props_gen.runtime_half(ctx, "C02")
 
 
 def run_c03(ctx):
-    reports = layout_workload(ctx, 40 if ctx.quick else 400)
-    ctx.absorb_reports(reports, binary=ctx.last_binary, outs=ctx.last_outs)
+    layout_workload(ctx, 40 if ctx.quick else 400)
     import props_gen
     props_gen.runtime_half(ctx, "C03")
 
@@ -67,6 +75,7 @@ def run_c12(ctx):
     ctx.subruns.append({"engine": "layoutmon builder", "shards": NS, "random_histories_per_shard": count,
                         "builders": ["native x 4 strategies", "generic x append_data / append_data_reverse"]})
     ctx.absorb_reports(reports, binary=ctx.last_binary, outs=ctx.last_outs)
+    release_pass(ctx, "builder", ["--count", count // 4], 900 if ctx.quick else 5400)
 
 
 def run_c13(ctx):
@@ -90,7 +99,10 @@ def run_c19(ctx):
     count = 600 if ctx.quick else 20_000
     # three separately started processes per shard: same seed, one of them perturbed
     outs = {}
-    for variant, perturb in (("p0", 0), ("p1", 0), ("p2", 3)):
+    rel = layoutmon_release()
+    rcount = max(count // 4, 1)
+    for variant, perturb, exe, n in (("p0", 0, binary, count), ("p1", 0, binary, count), ("p2", 3, binary, count),
+                                     ("r0", 0, rel, rcount), ("r1", 3, rel, rcount)):
         jobs = []
         for s in range(NS):
             out = ctx.outpath("determinism-%s-%d.json" % (variant, s))
@@ -101,16 +113,17 @@ def run_c19(ctx):
                 env["VERIF_EXTRA_ENV_%d" % s] = "x" * (100 + 37 * s)
                 env["MALLOC_PERTURB_"] = str(17 + s)
                 env["MALLOC_ARENA_MAX"] = "1"
-            jobs.append((out, [binary, "determinism", "--seed", str(ctx.seed), "--shard", str(s), "--count", str(count),
+            jobs.append((out, [exe, "determinism", "--seed", str(ctx.seed), "--shard", str(s), "--count", str(n),
                                "--perturb", str(perturb), "--out", out], None, env))
         for (out, rc, so, se, secs) in ctx.run_parallel(jobs, 900 if ctx.quick else 5400):
             if rc != 0 or not os.path.exists(out):
                 ctx.inconclusive.append("determinism sub-run %s: status %s %s" % (os.path.basename(out), rc, (se or "")[-300:]))
                 continue
             outs.setdefault(variant, {})[out.rsplit("-", 1)[1]] = json.load(open(out))
-    base = outs.get("p0", {})
-    ctx.absorb_reports(list(base.values()))
-    for variant in ("p1", "p2"):
+    ctx.absorb_reports(list(outs.get("p0", {}).values()))
+    ctx.absorb_reports(list(outs.get("r0", {}).values()), label="release")
+    for variant in ("p1", "p2", "r1"):
+        base = outs.get("r0" if variant == "r1" else "p0", {})
         for shard, rep in outs.get(variant, {}).items():
             ctx.merge_counters({"cross_process_histories_compared": len(rep["extra"]["digests"])})
             # in-process violations of the other processes count too
@@ -130,8 +143,8 @@ def run_c19(ctx):
                                   "history #%d of shard %s: process p0 digest %s, process %s digest %s" % (i, shard, x, variant, y),
                                   "C19 cross-process %s" % x.split()[0],
                                   {"shard": shard, "index": i, "history_digest": x.split()[0],
-                                   "note": "re-run `layoutmon determinism --seed %d --shard %s --count %d` in two processes and compare entry %d" % (ctx.seed, shard, count, i)})
-    ctx.subruns.append({"engine": "layoutmon determinism", "processes_per_shard": 3, "shards": NS,
+                                   "note": "re-run `layoutmon determinism --seed %d --shard %s --count %d` (%s build) in two processes and compare entry %d" % (ctx.seed, shard, len(b["extra"]["digests"]), "release" if variant == "r1" else "fastdebug", i)})
+    ctx.subruns.append({"engine": "layoutmon determinism", "processes_per_shard": "3 (debug-assertions build of truc) + 2 (release build of truc, a quarter of the histories)", "shards": NS,
                         "histories_per_shard": count, "perturbed_process": "p2: ballast allocations, extra environment, MALLOC_PERTURB_, single arena"})
 
 
@@ -142,6 +155,7 @@ def run_c20(ctx):
     ctx.subruns.append({"engine": "layoutmon replaydef", "shards": NS, "source_histories_per_shard": count,
                         "targets": ["native simple", "native basic", "native append_data", "native append_data_reverse", "generic append_data", "generic append_data_reverse"]})
     ctx.absorb_reports(reports, binary=ctx.last_binary, outs=ctx.last_outs)
+    release_pass(ctx, "replaydef", ["--count", count // 4], 900 if ctx.quick else 5400)
 
 
 def run_c18(ctx):
@@ -153,6 +167,7 @@ def run_c18(ctx):
                         "entry_points": ["typed", "typed allow-uninit", "dynamic (3 spellings)", "override (any subset of fields)", "copy"],
                         "standard_table": "every member of add_std_types (418) + custom registrations, 4 spellings each, before and after the JSON round trip; unregistered type must not be answered"})
     ctx.absorb_reports(reports, binary=ctx.last_binary, outs=ctx.last_outs)
+    release_pass(ctx, "resolver", ["--count", count // 4], 900 if ctx.quick else 5400)
 
 
 ASSUME_A = ["the reference model in harness/layoutmon/src/hist.rs states the builder contract correctly",
